@@ -387,12 +387,20 @@ pub fn cases_parts(o: &mut Outcome, rng: &mut Rng, thorough: bool, parts: Parts)
     let short = all_strings(&alpha_refs, if thorough { 4 } else { 3 });
     let prefixes = ["aaaaaaaaa", "aaaaaaaaaa", "aaaa aaaaaa", "aaaaaaaaaa ", "aaaaaaaaaa,", "aa http://a"];
     let suffixes = ["", "bb b"];
-    let mid = all_strings(&alpha_refs, if thorough { 3 } else { 2 });
+    let mid = all_strings(&alpha_refs, 2);
     let mut padded: Vec<String> = vec![];
     for p in prefixes {
         for m in &mid {
             for s in suffixes {
                 padded.push(format!("{}{}{}", p, m, s));
+            }
+        }
+    }
+    if thorough {
+        // three free graphemes behind the two prefixes that end exactly at MIN_STRING
+        for p in ["aaaaaaaaaa", "aaaa aaaaaa"] {
+            for m in all_strings(&alpha_refs, 3).iter().filter(|m| m.chars().count() == 3) {
+                padded.push(format!("{}{}", p, m));
             }
         }
     }
@@ -455,8 +463,16 @@ pub fn cases_parts(o: &mut Outcome, rng: &mut Rng, thorough: bool, parts: Parts)
     let mut items: Vec<Item> = vec![];
     for w in 1..=12usize {
         for f in formats_at(w, thorough) {
-            for s in &short {
-                if thorough || s.chars().count() <= 3 {
+            for s in short.iter().filter(|s| s.chars().count() <= 3) {
+                items.push(Item { f: f.clone(), text: s.clone(), desc: "exhaustive-short" });
+            }
+        }
+    }
+    if thorough {
+        // four graphemes: at the two widths where a text of four can be broken in the middle
+        for w in [3usize, 4] {
+            for f in [F::lit(w, 0, 0, w), F::lit(w, 0, 0, 100), F::cmt("// ", w, 0, 0, 100), F::cmt(" * ", w, 0, 0, w + 3)] {
+                for s in short.iter().filter(|s| s.chars().count() == 4) {
                     items.push(Item { f: f.clone(), text: s.clone(), desc: "exhaustive-short" });
                 }
             }
@@ -474,7 +490,8 @@ pub fn cases_parts(o: &mut Outcome, rng: &mut Rng, thorough: bool, parts: Parts)
     for w in [3usize, 9, 12, 15, 24] {
         for f in formats_at(w, false) {
             for s in &toks {
-                if thorough || s.len() % 2 == w % 2 {
+                let n = s.len();
+                if (thorough && (n + w) % 3 == 0) || (!thorough && n % 2 == w % 2) {
                     items.push(Item { f: f.clone(), text: s.clone(), desc: "token-sequences" });
                 }
             }
@@ -556,7 +573,12 @@ pub fn cases_parts(o: &mut Outcome, rng: &mut Rng, thorough: bool, parts: Parts)
         }
         if let Some(s) = real {
             if dom.contains(&it.text) {
-                judge_rewrite(o, &it.f, &it.text, &s, it.desc, parts);
+                if s.len() == it.f.opener.len() + it.text.len() + it.f.closer.len() && s[it.f.opener.len()..].starts_with(it.text.as_str()) {
+                    // returned as it came: nothing to judge
+                    o.count("oracle-skipped:unchanged");
+                } else {
+                    judge_rewrite(o, &it.f, &it.text, &s, it.desc, parts);
+                }
                 if parts.idem && !it.f.trim && it.f.opener == "\"" && it.f.closer == "\"" && it.f.le == "\\" && s.contains('\n') {
                     rebreak.push((it.clone(), s));
                 }
